@@ -269,6 +269,11 @@ impl Ctx {
         if self.reports.iter().any(|r| r.violation.is_some()) {
             return; // an earlier part already failed; report that one
         }
+        if let Ok(only) = std::env::var("VERIF_PART") {
+            if only != part.name() {
+                return; // sensitivity analysis: run a single part
+            }
+        }
         let part = Arc::new(part);
         let property = self.property;
         let shared = Arc::new(Mutex::new(PartReport {
@@ -320,6 +325,9 @@ impl Ctx {
             let known = known.clone();
             let seed = self.seed;
             let tier = self.tier;
+            // real-time / real-thread parts: every shrink step costs wall-clock time and the outcome
+            // is statistical, so only a few steps are taken
+            let shrink_iters = if part.deterministic() { 400 } else { 6 };
             let h = std::thread::Builder::new()
                 .name(format!("{}-{}-{}", property, part.name(), shard))
                 .stack_size(16 << 20)
@@ -328,7 +336,7 @@ impl Ctx {
                         cases: n,
                         failure_persistence: None,
                         rng_seed: RngSeed::Fixed(seed),
-                        max_shrink_iters: 400,
+                        max_shrink_iters: shrink_iters,
                         max_shrink_time: 0,
                         max_global_rejects: 1 << 20,
                         max_local_rejects: 1 << 16,
